@@ -4,6 +4,13 @@
 //!   different session ids, or message 1 / message 2 (whole or one instance) taken from another session
 //!                        ⇒ the receiver's key matches NEITHER sender key (on every affected instance)
 //!   malformed encodings  ⇒ Err exactly when the model says so (identity and SEC1 "compact" 05 encodings decode)
+//!   ALGEBRAICALLY RELATED substitutions (independent random substitutions cannot expose a key derivation that forgets
+//!   part of the shared point): message 2 with every point negated (sign byte 02<->03; = a sender whose scalars are
+//!   the negated ones) or doubled, message 1 entries with the chosen / the other point negated
+//!                        ⇒ NEITHER on every affected instance.  Expectation from the model for the correct code:
+//!                          the receiver's point becomes -t_a*t_b*G (resp. 2*t_a*t_b*G), the sender's chosen point
+//!                          t_b*(-r_c + H) resp. t_b*(r_c + H(.., -r_o)); `h_function_2` hashes the whole encoding,
+//!                          so the keys differ unless it collides (C05.msg2_substitution_partial with t_b' = -t_b).
 //! Every scenario is described by one line `c05 <kind> <sidA> <sidB> <seedA> <seedB> <tweak> <k> <k2> <val>`; all
 //! tapes are regenerated from the seeds, so `--replay` re-runs it exactly.
 use crate::{driver::Driver, oracle, report::{Failure, Report}, rng::{case_rng, TapeRng}, Opts};
@@ -243,6 +250,41 @@ fn scenario(cx: &mut Ctx, s: &Scen) {
             let Some(rk) = cx.recv_proc(&a, &m2) else { cx.pred("eot:subst-err", "receiver errs on a well-formed message".into(), String::new()); return; };
             expect_relation(cx, &relation(&a.bits, &a.skeys, &rk), &*affected, &format!("eot:{}-key-match", s.kind));
         }
+        "m2neg" | "m2scaled" | "m1neg" => {
+            // k2 = 1: every instance, 0: instance k only; val (m1neg) = chosen | other | both: which point of the entry
+            let all = s.k2 == 1;
+            let hit = |i: usize| all || i == s.k;
+            let negate = |p: &mut [u8]| { if p[0] == 2 || p[0] == 3 { p[0] ^= 1; true } else { false } };
+            let k = s.k; let affected = move |i: usize| all || i == k;
+            cx.rep.hist(&format!("related:{}:{}{}", s.kind, if all { "all" } else { "one" }, if s.kind == "m1neg" { format!(":{}", s.val) } else { String::new() }));
+            if s.kind == "m1neg" {
+                let mut m1 = a.msg1.clone();
+                for i in (0..N).filter(|i| hit(*i)) {
+                    let c = bit(&a.bits, i);
+                    for slot in 0..2 {
+                        let is_chosen = slot == c;
+                        if (s.val == "chosen" && !is_chosen) || (s.val == "other" && is_chosen) { continue; }
+                        negate(&mut m1[66 * i + 33 * slot..66 * i + 33 * slot + 33]);
+                    }
+                }
+                if m1 == a.msg1 { cx.rep.hist("substitution:identical-message"); return; }
+                let Some((Some(sk), m2)) = cx.send(&a.sid, &m1, &a.ts) else { cx.pred("eot:subst-err", "sender errs on a well-formed message".into(), String::new()); return; };
+                let Some(rk) = cx.recv_proc(&a, &m2) else { cx.pred("eot:subst-err", "receiver errs on a well-formed message".into(), String::new()); return; };
+                expect_relation(cx, &relation(&a.bits, &sk, &rk), &affected, "eot:related-substitution-matches");
+            } else {
+                let mut m2 = a.msg2.clone();
+                for i in (0..N).filter(|i| hit(*i)) {
+                    for slot in 0..2 {
+                        let off = 66 * i + 33 * slot;
+                        if s.kind == "m2neg" { negate(&mut m2[off..off + 33]); }
+                        else if let Some(p) = oracle::k_point(&m2[off..off + 33]) { m2[off..off + 33].copy_from_slice(&oracle::k_enc(&(p + p))); }
+                    }
+                }
+                if m2 == a.msg2 { cx.rep.hist("substitution:identical-message"); return; }
+                let Some(rk) = cx.recv_proc(&a, &m2) else { cx.pred("eot:subst-err", "receiver errs on a well-formed message".into(), String::new()); return; };
+                expect_relation(cx, &relation(&a.bits, &a.skeys, &rk), &affected, "eot:related-substitution-matches");
+            }
+        }
         "enc1" => {
             // slot k2 (0|1) of instance k of message 1 replaced by a special encoding
             let mut m1 = a.msg1.clone();
@@ -321,6 +363,22 @@ pub fn run(o: &Opts, drv: &mut Driver, rep: &mut Report) {
                 scenario(&mut cx, &sc("m2idx", a, &sids[a], seeds[a], 0, k, k2, "-"));
             }
             for kk in [0usize, N - 1] { if thorough { scenario(&mut cx, &sc("m1inst", a, &sids[b], seed_b, 0, kk, 0, "-")); scenario(&mut cx, &sc("m2inst", a, &sids[b], seed_b, 0, kk, 0, "-")); } }
+        }
+        // ---- algebraically related substitutions: negated / doubled points
+        {
+            let a = 2; let k = rng.gen_range(0..N);
+            scenario(&mut cx, &sc("m2neg", a, &[], 0, 0, k, 1, "-"));
+            scenario(&mut cx, &sc("m2neg", a, &[], 0, 0, k, 0, "-"));
+            scenario(&mut cx, &sc("m2scaled", a, &[], 0, 0, k, 1, "-"));
+            scenario(&mut cx, &sc("m1neg", a, &[], 0, 0, k, 1, "chosen"));
+            scenario(&mut cx, &sc("m1neg", a, &[], 0, 0, k, 0, "other"));
+            if thorough {
+                for a2 in [0usize, 1, 3] { scenario(&mut cx, &sc("m2neg", a2, &[], 0, 0, k, 1, "-")); }
+                scenario(&mut cx, &sc("m2scaled", a, &[], 0, 0, k, 0, "-"));
+                scenario(&mut cx, &sc("m1neg", a, &[], 0, 0, k, 1, "other"));
+                scenario(&mut cx, &sc("m1neg", a, &[], 0, 0, k, 1, "both"));
+                scenario(&mut cx, &sc("m1neg", a, &[], 0, 0, k, 0, "chosen"));
+            }
         }
         // ---- special encodings in every kind of slot (quick tier: each value once per message, slots alternate)
         for (vi, val) in ENC_VALUES.iter().enumerate() {
